@@ -183,6 +183,16 @@ func diffManager(w *bufio.Writer, n int, seed int64) {
 				fmt.Fprintf(w, "D %d register %d => u # -\n", c, v)
 				continue
 			}
+			if r.Intn(10) == 0 && nq > 0 {
+				// Manager.UnregisterItem: swap-with-last removal, cursor reset when it is at or past the removed slot
+				qi := r.Intn(nq)
+				cnt, cur := qm.Unregister(qi)
+				lens[qi] = lens[nq-1]
+				lens = lens[:nq-1]
+				nq--
+				fmt.Fprintf(w, "D %d unregister %d => x:%d,%d,%s # -\n", c, qi, cnt, cur, strings.Trim(strings.Join(strings.Fields(fmt.Sprint(qm.VerifOrder())), "."), "[]"))
+				continue
+			}
 			idx, cur, tot := qm.Next()
 			fmt.Fprintf(w, "D %d next => x:%d,%d,%d # -\n", c, idx, cur, tot)
 			if idx >= 0 {
